@@ -779,6 +779,9 @@ func init() {
 
 		// 5. wide sibling lists (60..140 children, equal siblings near the end)
 		c07wide(c)
+
+		// 6. compare (warm the children-by-tag cache), edit in place, compare with fresh copies
+		c07warmEdit(c)
 		c.Notes = append(c.Notes,
 			"DATE values: "+fmt.Sprint(len(c07EdgeDates))+" edge values (zero / half-zero dates, year > 9999, leading zeros, long space runs) in every stream, "+fmt.Sprint(len(c07TameDates))+" on which DateRange.Equals is an equivalence, "+fmt.Sprint(len(c07WildDates))+" constraint-bearing (every 4th tree)",
 			"not covered: NodesWithTag cache staleness after DeleteNode/SetNodes (C13); role nodes whose family is not a record of the document")
